@@ -4,6 +4,7 @@ import os
 import warnings
 from harness.common import facts as F
 from harness.c14 import c14facts
+from harness.c14 import translate as T
 from harness.c14 import app as A
 
 ID = 'C14'
@@ -34,25 +35,41 @@ ASSUMPTIONS = [
     'the judge is silent there',
 ]
 TRUSTED = [
-    'hand-written model coq/Model/C14.v of excview_tween, _error_handler, invoke_exception_view, hide_attrs, the '
-    'normal/exception registration split of add_view, the exception-view directives and the default exception-response '
-    'views (all shape-pinned), on top of the C03 model (imported unchanged)',
+    'the PRIMITIVE TABLE of harness/c14/translate.py (docstring; ~35 lines: what request.__dict__, dict operations, '
+    'sys.exc_info(), providedBy(exc), _call_view(..), manager.push/pop, tp(), truthiness, isinstance ... denote in the '
+    'model) and its fail-closed statement subset; the control flow of hide_attrs, reraise, invoke_exception_view, '
+    '_error_handler, excview_tween, default_exceptionresponse_view, isexception is regenerated from the source on every '
+    'run (gen_* in Gen/Facts_C14.v) and proved equal to the reference model',
+    'hand-written reference model coq/Model/C14_base.v (the theorems are about it and, through the gen_*_is_model '
+    'theorems, about the regenerated functions); the parts that are NOT regenerated stay shape-pinned: Router.handle_request / '
+    'invoke_request / finish_request (route matching, traversal and notifications are oracle inputs: too irregular for '
+    'the translator), add_view.register and the three directives (value facts + statement pins), MultiView / '
+    'predicated_view / register_view (C03), _secured_view; _find_views and _clear_view_lookup_cache are tied through '
+    "C15's translator (imported read-only); the C03 model (imported unchanged)",
     'the instrumented tweens / views of harness/c14/app.py (public seams only)',
 ]
-TECHNIQUE = ('Coq proof on a hand-written Gallina model (reusing the C03 lookup model and its lookup_winner theorem with the '
-             'exception classifier) + extracted-model differential correspondence of full event traces through '
-             'Router.__call__ + an executable judge of the property (Coq, extracted) applied to the implementation\'s trace')
-LEVEL_TEXT = ('Machine-checked theorems over the executable model: the exception view that renders an exception is a '
-              'qualifying registration than which none is more specific in the resolution order of the raised OBJECT '
-              '(route-bound before global via the combined request interface), it sees the exception as context, '
-              'request.exception and exc_info, which stay set afterwards; when no view applies the same object propagates '
-              'and response/exc_info/exception are restored (hide_attrs restores every named attribute for every attribute '
-              'map, name list without repetitions and body, refuted for repeated names); HTTP exceptions without a custom '
-              'view are returned as the response (404 for an unmatched URL, 403 for a refusal); exception_only splits the '
-              'registrations between the two classifiers.')
-LEVEL_NOTE = ('Trusted: Coq kernel; the hand-written model (shape-pinned, validated by trace correspondence); the C03 model; '
-              'Python harness; zope.interface as oracle. The specificity theorem inherits C03\'s hypotheses (no two '
-              'registrations with equal slot and phash, duplicate-free resolution orders, no accept=).')
+TECHNIQUE = ('Coq proof on a Gallina model whose control flow is REGENERATED from the Python source on every run '
+             '(fail-closed ast -> Gallina translator: continuation-passing symbolic execution for if/elif/and/or, '
+             'try/except/finally, with, for, return/raise, Optional narrowing; leaves through an explicit primitive table) '
+             'and proved equal to a hand-written reference model (generated_f = model_f, proof scripts independent of the '
+             'generated text) + C03 lookup theorems at the exception classifier + extracted-model differential '
+             'correspondence of full event traces through Router.__call__ (the runner executes the regenerated pipeline) '
+             '+ an executable judge of the property (Coq, extracted) applied to the implementation\'s trace')
+LEVEL_TEXT = ('Machine-checked theorems, stated about the functions regenerated from the current source: the exception view '
+              'that renders an exception is a qualifying registration than which none is more specific in the resolution '
+              'order of the raised OBJECT (route-bound before global via the combined request interface; overriding '
+              'declarations and, separately, accept= covered), it sees the exception as context, request.exception and '
+              'exc_info, which stay set afterwards; when no view applies the same object propagates and '
+              'response/exc_info/exception are restored (gen_hide_attrs restores every named attribute for every '
+              'attribute map, duplicate-free name list and body; refuted for repeated names); a secured exception view '
+              'that is refused does not run and its HTTPForbidden propagates; HTTP exceptions without a custom view are '
+              'returned as the response; exception_only splits the registrations between the two classifiers; the '
+              'executable judge accepts every trace of the regenerated pipeline.')
+LEVEL_NOTE = ('Trusted: Coq kernel; the translator\'s primitive table and statement subset (fail-closed); the reference '
+              'model for the parts that are not regenerated (shape-pinned); the C03 model; Python harness; zope.interface as '
+              'oracle. The specificity theorems inherit C03\'s hypotheses (equal (slot, phash) => equal order and predicate '
+              'texts -- checked by an executable premise on every generated world; duplicate-free resolution orders; no '
+              'accept= for the judge theorem); the judge theorem assumes no view body raises PredicateMismatch.')
 
 ISA_NAMES = ['BaseException', 'Exception', 'HTTPNotFound', 'PredicateMismatch', 'HTTPForbidden']   # + pseudo 'truthy'
 EXC_CLASSES = ['E0', 'E1', 'E2', 'F0', 'D', 'K', 'NF', 'FB', 'BR', 'PM', 'MyNF', 'HE', 'WX', 'BE', 'G1', 'G2', 'DD', 'FZ', 'EL', 'NA']
@@ -88,7 +105,11 @@ def facts(src):
         if v[k] not in ISA_NAMES:
             problems.append('%s = %s: a class outside the isinstance table of the harness' % (k, v[k]))
     summary.update({k: v[k] for k in sorted(v)})
-    return {'coq': c14facts.emit(v), 'summary': summary, 'problems': problems}
+    gen = T.generate(src, problems)
+    coq = c14facts.emit(v) + ('\n(* ---- REGENERATED by harness/c14/translate.py from the source on this run ---- *)\n'
+                             'Require Import Verif.Gen.Facts_C03 Verif.Model.C03 Verif.Model.C14_base.\n\n') + gen
+    summary['translated'] = list(T.ORDER)
+    return {'coq': coq, 'summary': summary, 'problems': problems}
 
 
 # ------------------------------------------------------------------ generation
@@ -427,12 +448,15 @@ def setup(tier):
     _P.update(locals())
 
 
-def _isexc(o):
-    """independent of pyramid.config.views.isexception: zope + Python only"""
+def _ctxbits(o):
+    """the oracle bits isexception() asks about (zope + Python only; the regenerated gen_isexception combines them)"""
     P = _P
-    if P['IInterface'].providedBy(o):
-        return bool(P['IException'].isEqualOrExtendedBy(o))
-    return P['inspect'].isclass(o) and issubclass(o, Exception)
+    if o is None:
+        return [False] * 5
+    iface = bool(P['IInterface'].providedBy(o))
+    cls = bool(P['inspect'].isclass(o))
+    return [iface, bool(P['IException'].isEqualOrExtendedBy(o)) if iface else False, isinstance(o, Exception), cls,
+            bool(issubclass(o, Exception)) if cls else False]
 
 
 class World:
@@ -538,7 +562,7 @@ class World:
         act = v['body']['act']
         wact = [0] if act[0] == 'ret' else [1] if act[0] == 'ctx' else [2, act[1]]
         return [DIRS.index(v['dir']), [] if ctxobj is None else [self.iid(self.spec_of(ctxobj))], v['xonly'],
-                False if ctxobj is None else _isexc(ctxobj), args, v['phase'], [v['body']['touch'], wact, v['perm']]]
+                _ctxbits(ctxobj), args, v['phase'], [v['body']['touch'], wact, v['perm']]]
 
     # ---- exceptions
     def make_exc(self, i):
@@ -713,12 +737,14 @@ def to_wire(case):
 
 
 _PREM = {}
+_GENREF = {}
 
 
 def from_wire(case, raw):
-    if raw == [['bad']] or not isinstance(raw, list) or any(not (isinstance(p, list) and len(p) == 6) for p in raw):
+    if raw == [['bad']] or not isinstance(raw, list) or any(not (isinstance(p, list) and len(p) == 7) for p in raw):
         return {'model': ['MODEL-BAD', raw], 'spec': None}
     _PREM[_key(case)] = [p[5] for p in raw]
+    _GENREF[_key(case)] = [p[0] == p[6] for p in raw]
     return {'model': [p[0] for p in raw], 'spec': [[p[1], p[2], sorted(p[3]), p[4], p[5]] for p in raw]}
 
 
@@ -854,6 +880,8 @@ def kinds(case, obs):
     k.append('cfg:autocommit' if case['autocommit'] else 'cfg:batched')
     for ok in _PREM.get(_key(case), []):
         k.append('theorem-premises:' + ('hold' if ok else 'fail'))
+    for ok in _GENREF.get(_key(case), []):
+        k.append('regenerated-pipeline-%s-reference' % ('equals' if ok else 'DIFFERS-FROM'))
     return k
 
 
